@@ -41,7 +41,7 @@ def run():
     for h, o in hist[:1]:
         chk.sample([r for r in h if r.get("e") not in ("pb", "pe")][:24])
     vlib.check_histories(chk, "LifeTrace", "LifeTrace.cfg", hist, "c05", batch=8)
-    chk.cov["rule"] = ("each process run = 5-8 runtime incarnations with random worker count (1-4), scheduling "
+    chk.cov["rule"] = ("each process run = 5-8 runtime incarnations with random worker count (1-4, occasionally 8 or 16), scheduling "
                        "policy (8), with/without an entry function (whose result stop() must return), a random "
                        "task forest (4-27 tasks: children, yields, blocking on children, priorities, stack "
                        "sizes) submitted by the entry function, the driver thread, a second external thread, "
